@@ -417,7 +417,7 @@ pub fn child_main(path: &str) -> i32 {
 }
 
 /// 10% of the cases are materialised on disk so that error rendering takes the file-reading path.
-fn judge_on_disk(st: &mut Stats, case: u64, family: &str, files: &Files) {
+fn judge_on_disk(st: &mut Stats, case: u64, family: &str, files: &Files, hazard: Option<String>) {
     let dir = std::env::temp_dir().join(format!("vcheck-c07-{}-{}", std::process::id(), case));
     let _ = std::fs::remove_dir_all(&dir);
     let mut disk = Files::new();
@@ -430,7 +430,7 @@ fn judge_on_disk(st: &mut Stats, case: u64, family: &str, files: &Files) {
         disk.insert(p.display().to_string(), v.clone());
     }
     let main = dir.join("main.sy").display().to_string();
-    judge(st, case, &format!("{}(on-disk)", family), &disk, &main, false, None);
+    judge(st, case, &format!("{}(on-disk)", family), &disk, &main, false, hazard);
     let _ = std::fs::remove_dir_all(&dir);
 }
 
@@ -488,10 +488,10 @@ impl Check for C07 {
                 return;
             }
         }
-        judge(st, index, family, &files, "main.sy", no_std, hazard);
+        judge(st, index, family, &files, "main.sy", no_std, hazard.clone());
         st.nontrivial(text_hash);
         if index % 10 == 3 || index % 97 == 8 {
-            judge_on_disk(st, index, family, &files);
+            judge_on_disk(st, index, family, &files, hazard.clone());
         }
         if index < 12 {
             let f2 = files.clone();
